@@ -1,260 +1,537 @@
 """C14  Power requests for a component group are applied one at a time, latest wins.
 
-Path / who-may-call rules on PowerDistributingActor._run, _process_request and
-_handle_task_completion (the done-callback lambda is followed).
+Per-path rules on PowerDistributingActor._run (one iteration of the request loop),
+_process_request and _handle_task_completion (the done-callback is followed).  Every path of the
+three functions is walked symbolically with locals substituted away and private helpers read into
+their call sites (sa/props/_c14_util.py), so the rules talk about *roles*:
+
+  key        frozenset(<loop variable>.component_ids) in _run; the 1st parameter of the two callees
+  request    the loop variable of `async for ... in self._requests_receiver`; the 2nd parameter
+  task       the value of the one `...create_task(...)` call of _process_request
+  in flight  membership of the key in self._processing_tasks
+  pending    membership of the key in self._pending_requests
+
+Names relied on: the attributes of the shared state (`_processing_tasks`, `_pending_requests`,
+`_requests_receiver`, `_component_manager`), the anchored functions, and the callees
+`distribute_power`, `create_task`, `add_done_callback`, `result`, dict `get` / `pop` / `keys`.
 """
 from __future__ import annotations
 
 import ast
+from typing import Any
 
-from ..engine.cfg import CFG
+from ..engine.normalize import positional
 from ..engine.report import AnalysisError, Run
-from ..engine.resolver import Program, body_walk, contains_await
-from ..engine.util import (
-    canon, find_calls, method_call, node_calls, node_has_call, node_writes, nodes_with_call, u,
-)
+from ..engine.resolver import FuncInfo, Program, contains_await
+from ..engine.sympath import Effect, Path, SymUnsupported
+from ..engine.util import u
+from ._c14_util import HelperGraph, Walk, effect_target, seg, splice
 
 MOD = "microgrid._power_distributing.power_distributing"
 ACTOR = f"{MOD}:PowerDistributingActor"
 PROC = "self._processing_tasks"
 PEND = "self._pending_requests"
+RECV = "self._requests_receiver"
+MANAGER = "self._component_manager"
+ANCHORS = ("_run", "_handle_task_completion", "_process_request")
+STATE_ATTRS = ("_processing_tasks", "_pending_requests")
 
 
-def check_only(run: Run, prog: Program) -> None:
-    cls = prog.cls(ACTOR)
-    n = 0
-    for m in cls.methods.values():
-        for c in find_calls(m.node, lambda c: isinstance(c.func, ast.Attribute)
-                            and c.func.attr == "distribute_power"):
-            n += 1
-            run.check(m.name == "_process_request" and u(c.func.value) == "self._component_manager",
-                      "C14.ONLY", m.qual, c,
-                      "the component manager's distribute_power is invoked outside _process_request: "
-                      "a distribution could run without being registered as in flight",
-                      node=c, file=m.file)
-        for c in find_calls(m.node, lambda c: method_call(c, "self", "_process_request")):
-            run.check(m.name in ("_run", "_handle_task_completion"), "C14.ONLY", m.qual, c,
-                      "_process_request is called from somewhere else than the request loop and the "
-                      "completion handler", node=c, file=m.file)
-    if n != 1:
-        raise AnalysisError(f"C14.ONLY: expected one distribute_power call site, found {n}")
-    # nobody else touches the two dictionaries
-    for m in cls.methods.values():
-        if m.name in ("__init__", "_run", "_handle_task_completion", "_process_request"):
+# --------------------------------------------------------------------------------------------- helpers
+def _nospace(e: ast.AST | str | None) -> str:
+    return (e if isinstance(e, str) else u(e)).replace(" ", "")
+
+
+def _mentions(x: Any, attr: str) -> bool:
+    return attr in (x if isinstance(x, str) else str(x))
+
+
+def _membership(key: Any, coll: str, k: str, popping: bool = False) -> bool | None:
+    """Does the canonical condition `key` (positive form) say "k is / is not a key of coll"?
+    True: it holds iff k is present; False: it holds iff k is absent; None: something else.
+    Sound for dictionaries whose values are never None / always truthy (tasks, Request objects)."""
+    if key in (("in", k, coll), ("in", k, f"{coll}.keys()")):
+        return True
+    lookups = [f"{coll}.get({k})", f"{coll}.get({k}, None)"] + ([f"{coll}.pop({k}, None)"] if popping else [])
+    for lk in lookups:
+        if key == ("is", frozenset({lk, "None"})):
+            return False
+        if key == ("truthy", lk):
+            return True
+    return None
+
+
+def _decision(p: Path, coll: str, attr: str, k: str, popping: bool = False) -> tuple[bool | None, list[str]]:
+    """(is k present in coll on this path, conditions on coll that are not a membership test of k)."""
+    present: bool | None = None
+    odd: list[str] = []
+    for key, outcome, atom, _ln, _o in p.conds:
+        if not _mentions(key, attr):
             continue
-        txt = u(m.node)
-        run.check(PROC not in txt and PEND not in txt, "C14.ONLY", m.qual, m.name,
-                  "the in-flight / pending bookkeeping is touched outside the three cooperating "
-                  "functions", node=m.node, file=m.file)
+        m = _membership(key, coll, k, popping)
+        if m is None:
+            odd.append(u(atom))
+        elif present is None:
+            present = outcome == m
+    return present, odd
 
 
-def check_reg(run: Run, prog: Program) -> None:
+def _bound(call: ast.AST, params: list[str]) -> dict[str, str] | None:
+    """Arguments of a call by parameter name (positional / keyword spellings coincide); None when
+    the call does not bind exactly these parameters."""
+    if not isinstance(call, ast.Call) or any(isinstance(a, ast.Starred) for a in call.args) \
+            or any(k.arg is None for k in call.keywords) or len(call.args) > len(params):
+        return None
+    a = positional(call, params)
+    if len(a) != len(call.args) + len(call.keywords) or set(a) - set(params):
+        return None
+    return {k: u(v) for k, v in a.items()}
+
+
+def _is_self_call(c: ast.AST, attr: str) -> bool:
+    return isinstance(c, ast.Call) and isinstance(c.func, ast.Attribute) and c.func.attr == attr \
+        and u(c.func.value) == "self"
+
+
+def _calls_on(p: Path, recv: str) -> list[Effect]:
+    """Method calls whose receiver is the given attribute (or a subscript / attribute of it)."""
+    out = []
+    for e in p.calls():
+        f = e.node.func  # type: ignore[attr-defined]
+        if isinstance(f, ast.Attribute) and (u(f.value) == recv or u(f.value).startswith((recv + "[", recv + "."))):
+            out.append(e)
+    return out
+
+
+def _writes(p: Path, attr: str) -> list[tuple[str, str, Effect]]:
+    return [(*effect_target(e), e) for e in p.effects if e.kind == "write" and _mentions(effect_target(e)[0], attr)]
+
+
+def _dels(p: Path, attr: str) -> list[Effect]:
+    return [e for e in p.effects if e.kind == "del" and _mentions(u(e.node), attr)]
+
+
+class Ctx:
+    def __init__(self) -> None:
+        self.unfollowed: set[str] = set()
+
+
+def _walk(prog: Program, fn: FuncInfo, ctx: Ctx) -> Walk:
+    w = Walk(prog, fn)
+    ctx.unfollowed |= w.ex.unfollowed
+    return w
+
+
+def _agg(run: Run, rule: str, fn: FuncInfo, what: str, msg: str, bad: list[tuple[Path, Any]], **kw: Any) -> None:
+    """One obligation over all paths; each offending (path, construct) pair is reported."""
+    if not bad:
+        run.ok(rule, kw.get("instance") or f"{fn.qual} :: {what}")
+        return
+    seen = set()
+    for p, construct in bad:
+        c = what if construct is None else construct
+        k = u(c) if isinstance(c, ast.AST) else str(c)
+        if k in seen:
+            continue
+        seen.add(k)
+        run.violation(rule, fn.qual, c, msg, node=fn.node, file=fn.file, path=p.describe())
+
+
+# --------------------------------------------------------------------------------------------- REG
+def check_reg(run: Run, prog: Program, ctx: Ctx) -> None:  # noqa: C901
     fn = prog.func(f"{ACTOR}._process_request")
+    handler = prog.func(f"{ACTOR}._handle_task_completion")
     run.analysed(fn.qual)
-    run.check(not fn.is_async and not contains_await(fn.node), "C14.REG", fn.qual, "synchronous",
+    if len(fn.params) < 3 or len(handler.params) < 4:
+        raise AnalysisError(f"{fn.qual}: signature (self, key, request) / (self, key, request, task) not found")
+    key, req = fn.params[1], fn.params[2]
+    hp = handler.params[1:4]
+    w = _walk(prog, fn, ctx)
+    run.check(not fn.is_async and not contains_await(w.tree), "C14.REG", fn.qual, "synchronous",
               "_process_request is not synchronous: registering the task is no longer atomic with "
               "respect to other requests", node=fn.node, file=fn.file)
-    cfg = CFG(fn.node, fn.file)
-    creates = nodes_with_call(cfg, lambda c: u(c.func).endswith("create_task"))
-    if len(creates) != 1:
-        raise AnalysisError(f"{fn.qual}: expected one create_task")
-    s = cfg.nodes[creates[0]].ast
-    tname = u(s.targets[0]) if isinstance(s, ast.Assign) else None
-    key, req = fn.params[1], fn.params[2]
-    call = node_calls(cfg, creates[0], lambda c: u(c.func).endswith("create_task"))[0]
-    inner = call.args[0] if call.args else None
-    ok = isinstance(inner, ast.Call) and u(inner.func) == "self._component_manager.distribute_power" \
-        and [u(a) for a in inner.args] == [req]
-    run.check(ok, "C14.REG", fn.qual, call, "the task does not distribute exactly the given request",
-              node=call, file=fn.file)
-    # done callback -> _handle_task_completion(req_id, request, task)
-    cbs = nodes_with_call(cfg, lambda c: method_call(c, tname, "add_done_callback"))
-    ok = False
-    if len(cbs) == 1:
-        cb = node_calls(cfg, cbs[0], lambda c: method_call(c, tname, "add_done_callback"))[0]
-        if cb.args and isinstance(cb.args[0], ast.Lambda):
-            lam = cb.args[0]
-            body = lam.body
-            lp = [a.arg for a in lam.args.args]
-            ok = isinstance(body, ast.Call) and method_call(body, "self", "_handle_task_completion") \
-                and [u(a) for a in body.args] == [key, req] + lp[:1]
-        elif cb.args and isinstance(cb.args[0], ast.Call) and u(cb.args[0].func).endswith("partial"):
-            a = cb.args[0].args
-            ok = len(a) == 3 and u(a[0]) == "self._handle_task_completion" and [u(x) for x in a[1:]] == [key, req]
-    run.check(ok, "C14.REG", fn.qual, "task.add_done_callback(... _handle_task_completion(req_id, request, t))",
-              "the distribution task has no completion callback for its own (group, request): a "
-              "pending request would never be started", node=fn.node, file=fn.file)
-    stores = [n.id for n in cfg.nodes if n.kind == "stmt" and any(
-        u(w) == f"{PROC}[{key}]" for w in node_writes(cfg, n.id))]
-    wit = cfg.path(cfg.entry, [cfg.exit], avoid=stores)
-    ok = bool(stores) and wit is None and all(
-        isinstance(cfg.nodes[x].ast, ast.Assign) and u(cfg.nodes[x].ast.value) == tname for x in stores)  # type: ignore[union-attr]
-    run.check(ok, "C14.REG", fn.qual, f"{PROC}[{key}] = {tname}",
-              "the created task is not registered as the group's in-flight task on every path",
-              node=fn.node, file=fn.file, path=cfg.describe_path(wit))
-    for nodes, what in ((creates, "create the task"), (cbs, "attach the callback")):
-        wit = cfg.path(cfg.entry, [cfg.exit], avoid=nodes)
-        run.check(wit is None, "C14.REG", fn.qual, what, f"a path through _process_request does not {what}",
-                  node=fn.node, file=fn.file, path=cfg.describe_path(wit))
+    nested = {n.name: n for n in ast.walk(w.tree) if isinstance(n, ast.FunctionDef) and n is not w.tree}
+    slot = f"{PROC}[{key}]"
+
+    def callback_ok(cb: ast.AST) -> bool:
+        """The callable calls _handle_task_completion(key, request, <the finished task>)."""
+        if isinstance(cb, ast.Lambda):
+            la = cb.args
+            if len(la.args) + len(la.posonlyargs) != 1 or la.vararg or la.kwarg or la.kwonlyargs:
+                return False
+            tpar = (la.posonlyargs + la.args)[0].arg
+            body: ast.AST | None = cb.body
+        elif isinstance(cb, ast.Name) and cb.id in nested:
+            d = nested[cb.id]
+            da = d.args
+            stmts = [s for s in d.body if not (isinstance(s, ast.Expr) and isinstance(s.value, ast.Constant))]
+            if len(da.args) + len(da.posonlyargs) != 1 or da.vararg or da.kwarg or da.kwonlyargs or len(stmts) != 1 \
+                    or not isinstance(stmts[0], (ast.Expr, ast.Return)) or d.decorator_list:
+                return False
+            tpar = (da.posonlyargs + da.args)[0].arg
+            body = stmts[0].value
+        elif isinstance(cb, ast.Call) and u(cb.func).split(".")[-1] == "partial" and cb.args \
+                and u(cb.args[0]) == "self._handle_task_completion":
+            a = _bound(ast.Call(func=cb.args[0], args=cb.args[1:], keywords=cb.keywords), hp)
+            return a == {hp[0]: key, hp[1]: req}
+        else:
+            return False
+        if body is None or not _is_self_call(body, "_handle_task_completion"):
+            return False
+        return _bound(body, hp) == {hp[0]: key, hp[1]: req, hp[2]: tpar}
+
+    bad: dict[str, list[tuple[Path, Any]]] = {k: [] for k in ("create", "coro", "cb", "cbarg", "reg", "writes")}
+    for p in w.paths:
+        creates = p.calls(lambda c: u(c.func).split(".")[-1] == "create_task")
+        if len(creates) != 1 or p.exit == "raise":
+            bad["create"].append((p, f"{len(creates)} create_task call(s) on a path"))
+            continue
+        call = creates[0].node
+        assert isinstance(call, ast.Call)
+        task = u(call)
+        coro = positional(call, ["coro"]).get("coro")
+        ok = isinstance(coro, ast.Call) and u(coro.func) == f"{MANAGER}.distribute_power" \
+            and [u(a) for a in coro.args] + [u(k.value) for k in coro.keywords if k.arg is not None] == [req] \
+            and not any(k.arg is None for k in coro.keywords)
+        if not ok:
+            bad["coro"].append((p, call))
+        # registration: PROC[key] = task ; nothing else is written to the in-flight map
+        ws = _writes(p, "_processing_tasks")
+        registered = [e for t, v, e in ws if t == slot and v == task]
+        if not registered:
+            bad["reg"].append((p, f"{slot} = <the created task>"))
+        odd = [e for t, v, e in ws if not (t == slot and v == task)] + _dels(p, "_processing_tasks") + [
+            e for e in _calls_on(p, PROC) if e.node.func.attr not in ("get", "keys", "add_done_callback")]  # type: ignore[attr-defined]
+        for e in odd:
+            bad["writes"].append((p, e.orig if e.kind != "call" and e.orig is not None else e.node))
+        # the completion callback, attached to this very task
+        cbs = p.calls(lambda c: isinstance(c.func, ast.Attribute) and c.func.attr == "add_done_callback")
+
+        order = {id(e): i for i, e in enumerate(p.effects)}
+
+        def on_task(e: Effect) -> bool:
+            recv = u(e.node.func.value)  # type: ignore[attr-defined]
+            return recv == task or (recv == slot and any(order[id(r)] < order[id(e)] for r in registered))
+
+        mine = [e for e in cbs if on_task(e)]
+        if len(mine) != 1 or len(cbs) != 1:
+            bad["cb"].append((p, "task.add_done_callback(... _handle_task_completion(req_id, request, t))"))
+            continue
+        cbcall = mine[0].node
+        assert isinstance(cbcall, ast.Call)
+        arg = positional(cbcall, ["fn"]).get("fn") or positional(cbcall, ["callback"]).get("callback")
+        if arg is None or not callback_ok(arg) or len(cbcall.args) + len(cbcall.keywords) != 1:
+            bad["cbarg"].append((p, "task.add_done_callback(... _handle_task_completion(req_id, request, t))"))
+    _agg(run, "C14.REG", fn, "create the task", "a path through _process_request does not create exactly one "
+         "distribution task", bad["create"])
+    _agg(run, "C14.REG", fn, "the task distributes exactly the given request",
+         "the task does not distribute exactly the given request", bad["coro"])
+    _agg(run, "C14.REG", fn, "attach the callback", "the distribution task has no completion callback on some path: a "
+         "pending request would never be started", bad["cb"])
+    _agg(run, "C14.REG", fn, "callback = _handle_task_completion(key, request, finished task)",
+         "the distribution task has no completion callback for its own (group, request): a "
+         "pending request would never be started", bad["cbarg"])
+    _agg(run, "C14.REG", fn, f"{slot} = <the created task> on every path",
+         "the created task is not registered as the group's in-flight task on every path", bad["reg"])
+    _agg(run, "C14.REG", fn, "the in-flight map only receives the registration",
+         "_process_request changes the in-flight map other than by registering the created task under "
+         "the group key", bad["writes"])
 
 
-def check_run(run: Run, prog: Program) -> None:
+# --------------------------------------------------------------------------------------------- _run
+def check_run(run: Run, prog: Program, ctx: Ctx) -> None:  # noqa: C901
     fn = prog.func(f"{ACTOR}._run")
+    proc = prog.func(f"{ACTOR}._process_request")
     run.analysed(fn.qual)
-    cfg = CFG(fn.node, fn.file)
-    loops = [n for n in cfg.nodes if n.kind == "for" and u(n.ast.iter) == "self._requests_receiver"]  # type: ignore[union-attr]
+    w = _walk(prog, fn, ctx)
+    pp = proc.params[1:3]
+    loops: dict[int, tuple[ast.AsyncFor, Path]] = {}
+    for p in w.paths:
+        for e in p.effects:
+            if e.kind == "loop" and isinstance(e.orig, (ast.AsyncFor, ast.For)) and u(e.node) == RECV:
+                loops.setdefault(id(e.orig), (e.orig, p))  # type: ignore[arg-type]
     if len(loops) != 1:
         raise AnalysisError(f"{fn.qual}: request loop not found")
-    h = loops[0]
-    rv = u(h.ast.target)  # type: ignore[union-attr]
-    body = cfg.reachable([m for m, lab in cfg.succ[h.id] if lab == "iter"], avoid=[h.id])
-    # KEY
-    keydefs = [cfg.nodes[x].ast for x in body if isinstance(cfg.nodes[x].ast, ast.Assign)
-               and u(cfg.nodes[x].ast.value) == f"frozenset({rv}.component_ids)"]  # type: ignore[union-attr]
-    if len(keydefs) != 1:
-        run.violation("C14.KEY", fn.qual, "req_id = frozenset(request.component_ids)",
-                      "the group key is not the frozenset of the request's component ids",
-                      node=fn.node, file=fn.file)
-        return
-    key = u(keydefs[0].targets[0])
-    run.ok("C14.KEY", f"{fn.qual}: key = frozenset({rv}.component_ids)")
-    # the in-flight guard
-    guards = [t for t in (cfg.nodes[x] for x in body) if t.kind == "test" and t.ast is not None
-              and canon(t.ast) in (("in", key, PROC), ("notin", key, PROC))]
-    other_tests = [t for t in (cfg.nodes[x] for x in body) if t.kind == "test" and t.ast is not None
-                   and "_processing_tasks" in t.label and t not in guards]
-    if len(guards) != 1 or other_tests:
-        run.violation("C14.ATOM", fn.qual, (other_tests or guards or [h])[0].ast,
-                      f"the in-flight guard is not exactly `{key} in {PROC}`: the decision between "
-                      "'park as pending' and 'start now' no longer coincides with the registration "
-                      "made by _process_request / cleared by the completion handler",
-                      node=fn.node, file=fn.file)
-        return
-    g = guards[0]
-    in_lab = "true" if canon(g.ast)[0] == "in" else "false"  # type: ignore[arg-type]
-    out_lab = "false" if in_lab == "true" else "true"
-    busy = cfg.reachable([m for m, lab in cfg.succ[g.id] if lab == in_lab], avoid=[h.id])
-    free = cfg.reachable([m for m, lab in cfg.succ[g.id] if lab == out_lab], avoid=[h.id])
-    procs = nodes_with_call(cfg, lambda c: method_call(c, "self", "_process_request"))
-    pend_writes = [x for x in body if any(u(w).startswith(PEND) for w in node_writes(cfg, x))]
-    # busy side: park, never start
-    run.check(not any(p in busy for p in procs), "C14.ATOM", fn.qual, "busy -> park only",
-              "a request is started although a task for the same group is in flight",
-              node=g.ast, file=fn.file)
-    wit = cfg.path([m for m, lab in cfg.succ[g.id] if lab == in_lab][0], [h.id], avoid=pend_writes) \
-        if pend_writes else [(g.id, "")]
-    if pend_writes and [m for m, lab in cfg.succ[g.id] if lab == in_lab][0] in pend_writes:
-        wit = None
-    run.check(wit is None, "C14.LATEST", fn.qual, f"{PEND}[{key}] = {rv}",
-              "while a task is in flight an incoming request can be dropped without being recorded "
-              "as the pending one", node=g.ast, file=fn.file, path=cfg.describe_path(wit),
-              instance=f"{fn.qual}: in flight -> the incoming request is recorded as pending on every path")
-    # free side: start now, with this request
-    wit = cfg.path([m for m, lab in cfg.succ[g.id] if lab == out_lab][0], [h.id], avoid=procs)
-    if [m for m, lab in cfg.succ[g.id] if lab == out_lab][0] in procs:
-        wit = None
-    run.check(wit is None and not any(p in free for p in pend_writes), "C14.ATOM", fn.qual,
-              "free -> start now", "with no task in flight the request is not started immediately",
-              node=g.ast, file=fn.file, path=cfg.describe_path(wit))
-    for p in procs:
-        c = node_calls(cfg, p, lambda c: method_call(c, "self", "_process_request"))[0]
-        run.check([u(a) for a in c.args] == [key, rv], "C14.KEY", fn.qual, c,
-                  "the request is started under a different key / with a different request",
-                  node=c, file=fn.file)
-    # LATEST: the only writes are plain overwrites with the incoming request
-    for x in pend_writes:
-        s = cfg.nodes[x].ast
-        ok = isinstance(s, ast.Assign) and u(s.targets[0]) == f"{PEND}[{key}]" and u(s.value) == rv
-        run.check(ok, "C14.LATEST", fn.qual, s,
-                  "the pending slot is not overwritten with the incoming request", node=s, file=fn.file)
-    for c in find_calls(fn.node, lambda c: isinstance(c.func, ast.Attribute) and u(c.func.value) == PEND):
-        run.check(c.func.attr == "get", "C14.LATEST", fn.qual, c,  # type: ignore[union-attr]
-                  f"`{u(c)}` mutates or conditionally fills the pending slot: an older pending request "
-                  "can survive a newer one", node=c, file=fn.file)
-    # ATOM: no await between the guard and the bookkeeping (both sides), nor between key and guard
-    region = (busy | free | {g.id}) - {h.id}
-    aw = [x for x in region if cfg.is_await(x)]
-    run.check(not aw, "C14.ATOM", fn.qual, cfg.nodes[aw[0]].ast if aw else "no await in the critical section",
+    loop, p0 = next(iter(loops.values()))
+    if not isinstance(loop, ast.AsyncFor) or not isinstance(loop.target, ast.Name):
+        raise AnalysisError(f"{fn.qual}: request loop is not `async for <name> in {RECV}`")
+    rv = loop.target.id
+    env = {k: v for k, v in p0.env.items() if not (isinstance(v, ast.Name) and v.id.startswith("<")) and k != rv}
+    try:
+        body = w.ex.block_paths(loop.body, env)
+    except SymUnsupported as exc:
+        raise AnalysisError(f"{fn.qual}: {exc}") from exc
+    ctx.unfollowed |= w.ex.unfollowed
+    if not body:
+        raise AnalysisError(f"{fn.qual}: the request loop has no path")
+    K = f"frozenset({rv}.component_ids)"
+
+    bad: dict[str, list[tuple[Path, Any]]] = {k: [] for k in (
+        "leave", "key", "guard", "undecided", "touch", "busy_start", "busy_park", "free_start", "free_park",
+        "args", "overwrite", "pendcall", "await")}
+    n_busy = n_free = 0
+    for p, st in body:
+        if st not in ("next", "continue"):
+            bad["leave"].append((p, f"{st} inside the request loop"))
+        # ---- the in-flight guard
+        present: bool | None = None
+        for key, outcome, atom, _ln, _o in p.conds:
+            if not _mentions(key, "_processing_tasks"):
+                continue
+            m = _membership(key, PROC, K)
+            if m is not None:
+                if present is None:
+                    present = outcome == m
+            elif isinstance(key, tuple) and key[:1] == ("in",) and key[2:] in ((PROC,), (f"{PROC}.keys()",)):
+                bad["key"].append((p, atom))
+            else:
+                bad["guard"].append((p, atom))
+        if present is None:
+            bad["undecided"].append((p, None))
+        # the in-flight map is only looked at, and only by the guard
+        for t, _v, e in _writes(p, "_processing_tasks"):
+            bad["touch"].append((p, e.orig or t))
+        for e in _dels(p, "_processing_tasks"):
+            bad["touch"].append((p, e.orig or e.node))
+        for e in _calls_on(p, PROC):
+            if not (e.node.func.attr in ("get", "keys") and u(e.node.func.value) == PROC):  # type: ignore[attr-defined]
+                bad["touch"].append((p, e.node))
+        # ---- bookkeeping of this path
+        starts = p.calls(lambda c: _is_self_call(c, "_process_request"))
+        pend_w = _writes(p, "_pending_requests")
+        overwrites = [e for t, v, e in pend_w if t == f"{PEND}[{K}]" and v == rv]
+        for t, v, e in pend_w:
+            if not (t == f"{PEND}[{K}]" and v == rv):
+                bad["overwrite"].append((p, f"{t} = {v}"))
+        for e in _dels(p, "_pending_requests"):
+            bad["overwrite"].append((p, f"del {u(e.node)}"))
+        for e in _calls_on(p, PEND):
+            if not (e.node.func.attr in ("get", "keys") and u(e.node.func.value) == PEND):  # type: ignore[attr-defined]
+                bad["pendcall"].append((p, e.node))
+        for e in starts:
+            if _bound(e.node, pp) != {pp[0]: K, pp[1]: rv}:
+                bad["args"].append((p, e.node))
+        if present is True:
+            n_busy += 1
+            if starts:
+                bad["busy_start"].append((p, starts[0].node))
+            if not overwrites:
+                bad["busy_park"].append((p, f"{PEND}[{K}] = {rv}"))
+        elif present is False:
+            n_free += 1
+            if len(starts) != 1:
+                bad["free_start"].append((p, f"{len(starts)} start(s) of the request with no task in flight"))
+            if pend_w:
+                bad["free_park"].append((p, pend_w[0][2].orig or pend_w[0][0]))
+        for e in p.effects:
+            if e.kind == "await":
+                bad["await"].append((p, e.node))
+    if not n_busy or not n_free:
+        if not (bad["guard"] or bad["key"] or bad["undecided"]):
+            raise AnalysisError(f"{fn.qual}: the request loop has no in-flight / no free path")
+    _agg(run, "C14.KEY", fn, f"key = frozenset({rv}.component_ids)",
+         "the group key is not the frozenset of the request's component ids", bad["key"],
+         instance=f"{fn.qual}: key = frozenset(<request>.component_ids)")
+    _agg(run, "C14.ATOM", fn, "guard is exactly `key in self._processing_tasks`",
+         f"the in-flight guard is not exactly `<key> in {PROC}`: the decision between "
+         "'park as pending' and 'start now' no longer coincides with the registration "
+         "made by _process_request / cleared by the completion handler", bad["guard"])
+    _agg(run, "C14.ATOM", fn, "every iteration tests the in-flight map",
+         "an iteration of the request loop does its bookkeeping without testing whether a task for the "
+         "group is in flight", bad["undecided"])
+    _agg(run, "C14.ATOM", fn, "the request loop only looks at the in-flight map",
+         "the request loop changes the in-flight map itself (registration belongs to _process_request, "
+         "clearing to the completion handler)", bad["touch"])
+    _agg(run, "C14.ATOM", fn, "busy -> park only",
+         "a request is started although a task for the same group is in flight", bad["busy_start"])
+    _agg(run, "C14.LATEST", fn, f"{PEND}[key] = request",
+         "while a task is in flight an incoming request can be dropped without being recorded "
+         "as the pending one", bad["busy_park"],
+         instance=f"{fn.qual}: in flight -> the incoming request is recorded as pending on every path")
+    _agg(run, "C14.ATOM", fn, "free -> start now",
+         "with no task in flight the request is not started immediately (exactly once)", bad["free_start"])
+    _agg(run, "C14.ATOM", fn, "free -> nothing parked",
+         "with no task in flight the request is (also) parked as pending", bad["free_park"])
+    _agg(run, "C14.KEY", fn, "self._process_request(key, request)",
+         "the request is started under a different key / with a different request", bad["args"])
+    _agg(run, "C14.LATEST", fn, "pending slot: plain overwrite with the incoming request",
+         "the pending slot is not overwritten with the incoming request", bad["overwrite"])
+    _agg(run, "C14.LATEST", fn, "pending map otherwise only read (get)",
+         "the call mutates or conditionally fills the pending slot: an older pending request "
+         "can survive a newer one", bad["pendcall"])
+    _agg(run, "C14.LATEST", fn, "every iteration returns to the receiver",
+         "an iteration leaves the request loop: later requests are never recorded nor started",
+         bad["leave"])
+    _agg(run, "C14.ATOM", fn, "no await on any path of an iteration",
+         "an await lies between receiving a request, the in-flight test and the pending/start "
+         "bookkeeping: a completion callback can run in between and the request is lost or started twice",
+         bad["await"])
+    aw = [s for s in loop.body if contains_await(s)]
+    run.check(not aw, "C14.ATOM", fn.qual, aw[0] if aw else "no await in the critical section",
               "an await lies between the in-flight test and the pending/start bookkeeping: a "
               "completion callback can run in between and the request is lost or started twice",
-              node=cfg.nodes[aw[0]].ast if aw else g.ast, file=fn.file)
-    pre = cfg.reachable([m for m, lab in cfg.succ[h.id] if lab == "iter"], avoid=[g.id, h.id])
-    aw = [x for x in pre if cfg.is_await(x) and x not in region]
-    run.check(not aw, "C14.ATOM", fn.qual, "no await between receiving a request and the guard",
-              "an await lies between receiving the request and testing for an in-flight task",
-              node=cfg.nodes[aw[0]].ast if aw else g.ast, file=fn.file)
+              node=aw[0] if aw else loop, file=fn.file)
 
 
-def check_handler(run: Run, prog: Program) -> None:
+# --------------------------------------------------------------------------------------------- handler
+def check_handler(run: Run, prog: Program, ctx: Ctx) -> None:  # noqa: C901
     fn = prog.func(f"{ACTOR}._handle_task_completion")
+    proc = prog.func(f"{ACTOR}._process_request")
     run.analysed(fn.qual)
-    run.check(not fn.is_async and not contains_await(fn.node), "C14.NEXT", fn.qual, "synchronous",
-              "the completion handler is not synchronous", node=fn.node, file=fn.file)
-    cfg = CFG(fn.node, fn.file)
+    if len(fn.params) < 4:
+        raise AnalysisError(f"{fn.qual}: signature (self, key, request, task) not found")
     key = fn.params[1]
-    res = nodes_with_call(cfg, lambda c: isinstance(c.func, ast.Attribute) and c.func.attr == "result" and not c.args)
-    tests = [t for t in cfg.nodes if t.kind == "test" and t.ast is not None and canon(t.ast) == ("in", key, PEND)]
-    if len(tests) != 1:
-        run.violation("C14.NEXT", fn.qual, "if req_id in self._pending_requests",
-                      "the pending/clear decision is not a membership test on the pending requests",
-                      node=fn.node, file=fn.file)
-        return
-    t = tests[0]
-    # totality: from entry, and from every exception handler of task.result(), the decision is reached
-    wit = cfg.path(cfg.entry, [cfg.exit], avoid=[t.id])
-    run.check(wit is None, "C14.NEXT", fn.qual, "decision reached on every normal path",
-              "the completion handler can return without deciding between 'start the pending "
-              "request' and 'clear the in-flight entry' — a parked request would never be applied",
-              node=fn.node, file=fn.file, path=cfg.describe_path(wit))
-    for r in res:
-        for m, lab in cfg.succ[r]:
-            if lab == "exc:E":
-                run.check(cfg.nodes[m].kind == "handler", "C14.NEXT", fn.qual, cfg.nodes[r].ast,
-                          "an exception of the finished distribution escapes the completion handler: "
-                          "the group stays marked as in flight forever", node=cfg.nodes[r].ast, file=fn.file)
-                if cfg.nodes[m].kind == "handler":
-                    wit = cfg.path(m, [cfg.exit], avoid=[t.id])
-                    run.check(wit is None, "C14.NEXT", fn.qual, cfg.nodes[m].ast,
-                              "after a failed distribution the handler skips the pending/clear "
-                              "decision: the request that arrived meanwhile is never started",
-                              node=cfg.nodes[m].ast, file=fn.file, path=cfg.describe_path(wit))
-    # pending side: pop and start under the same key
-    yes = [m for m, lab in cfg.succ[t.id] if lab == "true"]
-    no = [m for m, lab in cfg.succ[t.id] if lab == "false"]
-    procs = nodes_with_call(cfg, lambda c: method_call(c, "self", "_process_request"))
-    ok = bool(procs) and yes[:1] == procs[:1]
-    if ok:
-        c = node_calls(cfg, procs[0], lambda c: method_call(c, "self", "_process_request"))[0]
-        ok = [u(a).replace(" ", "") for a in c.args] == [key, f"{PEND}.pop({key})"]
-    run.check(ok, "C14.NEXT", fn.qual, f"self._process_request({key}, {PEND}.pop({key}))",
-              "the pending request is not consumed (pop) and started under its own key",
-              node=fn.node, file=fn.file)
-    # in-flight entry deleted only when nothing is pending
-    dels = [n.id for n in cfg.nodes if isinstance(n.ast, ast.Delete) and PROC in u(n.ast)] + \
-        nodes_with_call(cfg, lambda c: method_call(c, PROC, "pop"))
-    yes_side = cfg.reachable(yes)
-    run.check(bool(dels) and not any(d in yes_side for d in dels) and all(d in cfg.reachable(no) for d in dels),
-              "C14.NEXT", fn.qual, f"del {PROC}[{key}] only when nothing is pending",
-              "the in-flight marker is cleared although a pending request is about to be started "
-              "(or is never cleared): two requests of one group could then run concurrently",
-              node=fn.node, file=fn.file)
-    for d in dels:
-        run.check(f"[{key}]" in u(cfg.nodes[d].ast) or f"({key}" in u(cfg.nodes[d].ast), "C14.KEY", fn.qual,
-                  cfg.nodes[d].ast, "the cleared in-flight entry is not this group's", node=cfg.nodes[d].ast,
-                  file=fn.file)
-    if any(lab == "exc:C" for r in res for _m, lab in cfg.succ[r]):
+    pp = proc.params[1:3]
+    w = _walk(prog, fn, ctx)
+    run.check(not fn.is_async and not contains_await(w.tree), "C14.NEXT", fn.qual, "synchronous",
+              "the completion handler is not synchronous", node=fn.node, file=fn.file)
+    slot = f"{PROC}[{key}]"
+    bad: dict[str, list[tuple[Path, Any]]] = {k: [] for k in (
+        "raise", "decide", "odd", "escape", "start", "nostart", "clear_pending", "clear", "keyed", "write")}
+    only_exception = False
+    n_yes = n_no = 0
+    for p in w.paths:
+        if p.exit == "raise":
+            bad["raise"].append((p, f"raise {u(p.ret)}".strip()))
+            continue
+        pending, odd = _decision(p, PEND, "_pending_requests", key, popping=True)
+        for o in odd:
+            bad["odd"].append((p, o))
+        if pending is None:
+            failed = any(isinstance(k, tuple) and k[:1] == ("except",) for k, *_ in p.conds)
+            bad["decide"].append((p, "after a failed distribution" if failed else "decision reached on every normal path"))
+        # exceptions of the finished distribution stay inside the handler
+        for e in p.calls(lambda c: isinstance(c.func, ast.Attribute) and c.func.attr == "result"
+                         and not c.args and not c.keywords):
+            g = getattr(e, "guarded", "")
+            if not g:
+                bad["escape"].append((p, e.node))
+            only_exception |= g == "E"
+        starts = p.calls(lambda c: _is_self_call(c, "_process_request"))
+        dels = [(u(e.node), e) for e in _dels(p, "_processing_tasks")]
+        pops = [e for e in _calls_on(p, PROC) if e.node.func.attr == "pop" and u(e.node.func.value) == PROC]  # type: ignore[attr-defined]
+        cleared = [e for t, e in dels if t == slot] + [
+            e for e in pops if e.node.args and u(e.node.args[0]) == key]  # type: ignore[attr-defined]
+        for t, e in dels:
+            if t != slot:
+                bad["keyed"].append((p, e.orig or e.node))
+        for e in pops:
+            if not (e.node.args and u(e.node.args[0]) == key):  # type: ignore[attr-defined]
+                bad["keyed"].append((p, e.node))
+        for t, _v, e in _writes(p, "_processing_tasks"):
+            bad["write"].append((p, e.orig or t))
+        for e in _calls_on(p, PROC):
+            if e not in pops and not (e.node.func.attr in ("get", "keys") and u(e.node.func.value) == PROC):  # type: ignore[attr-defined]
+                bad["write"].append((p, e.node))
+        if pending is True:
+            n_yes += 1
+            ok = len(starts) == 1
+            if ok:
+                a = _bound(starts[0].node, pp)
+                consumed = a is not None and set(a) == set(pp) and a[pp[0]] == key and (
+                    _nospace(a[pp[1]]) in (_nospace(f"{PEND}.pop({key})"), _nospace(f"{PEND}.pop({key}, None)"))
+                    or (_nospace(a[pp[1]]) == _nospace(f"{PEND}[{key}]")
+                        and any(u(e.node) == f"{PEND}[{key}]" for e in _dels(p, "_pending_requests"))))
+                ok = bool(consumed)
+            if not ok:
+                bad["start"].append((p, f"self._process_request({key}, {PEND}.pop({key}))"))
+            if cleared or dels or pops:
+                bad["clear_pending"].append((p, f"del {slot} only when nothing is pending"))
+        elif pending is False:
+            n_no += 1
+            if starts:
+                bad["nostart"].append((p, starts[0].node))
+            absent = p.outcome(("in", key, PROC)) is False or p.outcome(("in", key, f"{PROC}.keys()")) is False
+            if not cleared and not absent:
+                bad["clear"].append((p, f"del {slot} only when nothing is pending"))
+    if not (n_yes and n_no) and not (bad["decide"] or bad["odd"] or bad["raise"]):
+        raise AnalysisError(f"{fn.qual}: no pending / no not-pending path found")
+    _agg(run, "C14.NEXT", fn, "no exception is raised by the handler itself",
+         "the completion handler raises: the pending/clear decision is skipped and the group stays "
+         "marked as in flight forever", bad["raise"])
+    _agg(run, "C14.NEXT", fn, "decision reached on every normal and every Exception path",
+         "the completion handler can return without deciding between 'start the pending "
+         "request' and 'clear the in-flight entry' — a parked request would never be applied "
+         "(after a failed distribution: the request that arrived meanwhile is never started)", bad["decide"])
+    _agg(run, "C14.NEXT", fn, "decision = membership of the key in the pending requests",
+         "the pending/clear decision is not a membership test of the group key on the pending requests",
+         bad["odd"])
+    _agg(run, "C14.NEXT", fn, "task.result() inside try/except Exception",
+         "an exception of the finished distribution escapes the completion handler: "
+         "the group stays marked as in flight forever", bad["escape"])
+    _agg(run, "C14.NEXT", fn, "pending -> pop and start under the same key",
+         "the pending request is not consumed (pop) and started under its own key", bad["start"])
+    _agg(run, "C14.NEXT", fn, "nothing pending -> nothing started",
+         "a request is started although nothing is pending", bad["nostart"])
+    _agg(run, "C14.NEXT", fn, "pending -> the in-flight marker stays",
+         "the in-flight marker is cleared although a pending request is about to be started: two "
+         "requests of one group could then run concurrently", bad["clear_pending"])
+    _agg(run, "C14.NEXT", fn, "nothing pending -> the in-flight marker is cleared",
+         "the in-flight marker is never cleared on a path with nothing pending: every later request "
+         "of the group is parked forever", bad["clear"])
+    _agg(run, "C14.KEY", fn, f"del {slot}", "the cleared in-flight entry is not this group's", bad["keyed"])
+    _agg(run, "C14.NEXT", fn, "the handler only clears the in-flight map",
+         "the completion handler writes the in-flight map itself (registration belongs to _process_request)",
+         bad["write"])
+    if only_exception:
         run.note("a *cancelled* distribution task makes task.result() raise CancelledError, which "
                  "`except Exception` does not catch: outside the property's quantifier (informational)")
 
 
+# --------------------------------------------------------------------------------------------- ONLY
+def check_only(run: Run, prog: Program, ctx: Ctx) -> None:
+    cls = prog.cls(ACTOR)
+    graph = HelperGraph(cls, ANCHORS)
+
+    def home(m: FuncInfo) -> set[str] | None:
+        """The anchored functions the code of `m` belongs to (itself, or where it is read into)."""
+        return graph.absorbed_by(m.name, ctx.unfollowed)
+
+    n = 0
+    for m in cls.methods.values():
+        for c in [x for x in ast.walk(m.node) if isinstance(x, ast.Call)]:
+            if isinstance(c.func, ast.Attribute) and c.func.attr == "distribute_power":
+                n += 1
+                run.check(home(m) == {"_process_request"} and u(c.func.value) == MANAGER,
+                          "C14.ONLY", m.qual, c,
+                          "the component manager's distribute_power is invoked outside _process_request: "
+                          "a distribution could run without being registered as in flight",
+                          node=c, file=m.file)
+            if _is_self_call(c, "_process_request"):
+                h = home(m)
+                run.check(h is not None and h <= {"_run", "_handle_task_completion"}, "C14.ONLY", m.qual, c,
+                          "_process_request is called from somewhere else than the request loop and the "
+                          "completion handler", node=c, file=m.file)
+        for who, is_call in graph.refs.get("_process_request", []):
+            if who == m.name and not is_call:
+                run.violation("C14.ONLY", m.qual, "self._process_request passed around",
+                              "_process_request is handed out as a callable: it can be invoked outside the "
+                              "request loop and the completion handler", node=m.node, file=m.file)
+    if n != 1:
+        raise AnalysisError(f"C14.ONLY: expected one distribute_power call site, found {n}")
+    # nobody else touches the two dictionaries
+    for m in cls.methods.values():
+        if m.name in ("__init__",) + ANCHORS:
+            continue
+        touches = any(isinstance(x, ast.Attribute) and x.attr in STATE_ATTRS for x in ast.walk(m.node))
+        if touches and home(m) is None and graph.absorbed_by(m.name, set()) is not None:
+            raise AnalysisError(f"{m.qual} touches the in-flight / pending bookkeeping and is called from the "
+                                "anchored functions in a way the path walker cannot follow")
+        run.check(not touches or home(m) is not None, "C14.ONLY", m.qual, m.name,
+                  "the in-flight / pending bookkeeping is touched outside the three cooperating "
+                  "functions", node=m.node, file=m.file)
+
+
+# --------------------------------------------------------------------------------------------- controls
 CONTROLS = [
     ("await inside the critical section", MOD,
      "                self._pending_requests[req_id] = request\n",
      "                await asyncio.sleep(0)\n                self._pending_requests[req_id] = request\n", "C14.ATOM"),
     ("get instead of pop", MOD, "self._pending_requests.pop(req_id)", "self._pending_requests.get(req_id)", "C14.NEXT"),
-    ("return in the except arm", MOD,
-     "            _logger.exception(\"Failed power request: %s\", request)\n",
-     "            _logger.exception(\"Failed power request: %s\", request)\n            return\n", "C14.NEXT"),
+    ("return in the except arm", MOD,   # anchored to the handler by the decision that follows
+     "            _logger.exception(\"Failed power request: %s\", request)\n\n        if req_id in self._pending_requests:\n",
+     "            _logger.exception(\"Failed power request: %s\", request)\n            return\n\n"
+     "        if req_id in self._pending_requests:\n", "C14.NEXT"),
     ("callback dropped", MOD,
      "        task.add_done_callback(\n            lambda t: self._handle_task_completion(req_id, request, t)\n        )\n", "",
      "C14.REG"),
@@ -265,21 +542,99 @@ CONTROLS = [
 ]
 
 
+def structural_controls(prog: Program) -> list[tuple[str, str, str, str, str]]:  # noqa: C901
+    """The same kinds of defects as CONTROLS, located by structure in the tree under analysis (whole
+    source replacements), so that they apply to every shape of the anchored code."""
+    mod = prog.module(MOD)
+    src = mod.source
+    cls = prog.cls(ACTOR)
+    out: list[tuple[str, str, str, str, str]] = []
+
+    def add(name: str, edits: list[tuple[ast.AST, str]], rule: str) -> None:
+        if edits:
+            out.append((f"[structural] {name}", MOD, src, splice(src, edits), rule))
+
+    def ind(n: ast.AST) -> str:
+        return " " * n.col_offset  # type: ignore[attr-defined]
+
+    def sub_of(t: ast.AST, attr: str) -> bool:
+        return isinstance(t, ast.Subscript) and isinstance(t.value, ast.Attribute) and t.value.attr == attr \
+            and u(t.value.value) == "self"
+
+    methods = list(cls.methods.values())
+    every = [(m, n) for m in methods for n in ast.walk(m.node)]
+    # an await between the in-flight test and the bookkeeping (else: between receiving and the test)
+    run_fn = cls.methods.get("_run")
+    if run_fn is not None:
+        loops = [n for n in ast.walk(run_fn.node) if isinstance(n, ast.AsyncFor) and u(n.iter) == RECV]
+        if len(loops) == 1:
+            guards = [s for s in loops[0].body if isinstance(s, ast.If) and "_processing_tasks" in u(s.test)]
+            first = guards[0].body[0] if guards else loops[0].body[0]
+            add("await inside the critical section",
+                [(first, f"await asyncio.sleep(0)\n{ind(first)}{seg(src, first)}")], "C14.ATOM")
+    # the pending request is started but stays pending
+    pops = [n.func for m, n in every if isinstance(n, ast.Call) and isinstance(n.func, ast.Attribute)
+            and n.func.attr == "pop" and u(n.func.value) == PEND]
+    add("get instead of pop", [(f, f"{PEND}.get") for f in pops], "C14.NEXT")
+    # the except arm around task.result() leaves the handler (return in the handler, raise in a helper)
+    for m, n in every:
+        if isinstance(n, ast.Try) and n.handlers and any(
+                isinstance(c, ast.Call) and isinstance(c.func, ast.Attribute) and c.func.attr == "result" and not c.args
+                for b in n.body for c in ast.walk(b)):
+            last = n.handlers[0].body[-1]
+            word = "return" if m.name == "_handle_task_completion" else "raise"
+            add(f"{word} in the except arm", [(last, f"{seg(src, last)}\n{ind(last)}{word}")], "C14.NEXT")
+            break
+    cbs = [n for m, n in every if isinstance(n, ast.Expr) and isinstance(n.value, ast.Call)
+           and isinstance(n.value.func, ast.Attribute) and n.value.func.attr == "add_done_callback"]
+    add("callback dropped", [(s, "pass") for s in cbs], "C14.REG")
+    pend_w = [n for m, n in every if isinstance(n, ast.Assign) and len(n.targets) == 1
+              and sub_of(n.targets[0], "_pending_requests")]
+    add("older pending request kept",
+        [(s, f"{PEND}.setdefault({seg(src, s.targets[0].slice)}, {seg(src, s.value)})") for s in pend_w],  # type: ignore[attr-defined]
+        "C14.LATEST")
+    tests = [n for m, n in every if m.name not in ("_handle_task_completion", "_process_request", "__init__")
+             and isinstance(n, ast.Compare) and len(n.ops) == 1 and isinstance(n.ops[0], (ast.In, ast.NotIn))
+             and u(n.comparators[0]) == PROC]
+    edits = []
+    for c in tests:
+        k = seg(src, c.left)
+        edits.append((c, f"({k} in {PROC} and not {PROC}[{k}].done())" if isinstance(c.ops[0], ast.In)
+                      else f"({k} not in {PROC} or {PROC}[{k}].done())"))
+    add("guard looks at task.done()", edits, "C14.ATOM")
+    regs = [n for m, n in every if isinstance(n, (ast.Assign, ast.AnnAssign)) and n.value is not None
+            and any(sub_of(t, "_processing_tasks") for t in (n.targets if isinstance(n, ast.Assign) else [n.target]))]
+    add("registration dropped", [(s, "pass") for s in regs], "C14.REG")
+    clears = [n for m, n in every if (isinstance(n, ast.Delete) and any(sub_of(t, "_processing_tasks") for t in n.targets))
+              or (isinstance(n, ast.Expr) and isinstance(n.value, ast.Call) and isinstance(n.value.func, ast.Attribute)
+                  and n.value.func.attr == "pop" and u(n.value.func.value) == PROC)]
+    add("in-flight marker never cleared", [(s, "pass") for s in clears], "C14.NEXT")
+    keys = [n for m, n in every if m.name not in ("_handle_task_completion", "_process_request", "__init__")
+            and isinstance(n, ast.Call) and u(n.func) == "frozenset" and len(n.args) == 1
+            and isinstance(n.args[0], ast.Attribute) and n.args[0].attr == "component_ids"]
+    add("key is not the component set", [(c, "frozenset()") for c in keys], "C14.KEY")
+    return out
+
+
 def run_rules(run: Run, prog: Program) -> None:
-    check_only(run, prog)
-    check_reg(run, prog)
-    check_run(run, prog)
-    check_handler(run, prog)
+    ctx = Ctx()
+    check_reg(run, prog, ctx)
+    check_run(run, prog, ctx)
+    check_handler(run, prog, ctx)
+    check_only(run, prog, ctx)
 
 
 def check(run: Run, prog: Program, tier: str) -> str:
     run.rule("C14.ONLY", "distribute_power only inside _process_request; _process_request only from the "
-             "request loop and the completion handler; bookkeeping dicts touched nowhere else")
+             "request loop and the completion handler; bookkeeping dicts touched nowhere else (private "
+             "helpers read into these functions count as part of them)")
     run.rule("C14.REG", "_process_request is synchronous and on every path creates the task, attaches "
              "the completion callback for (group, request) and registers the task under the group key")
     run.rule("C14.ATOM", "the in-flight guard is exactly `key in _processing_tasks`; no await between "
-             "receiving a request, the guard and the bookkeeping")
-    run.rule("C14.LATEST", "the pending slot is only ever overwritten with the incoming request")
+             "receiving a request, the guard and the bookkeeping; in flight -> never started, free -> started "
+             "exactly once")
+    run.rule("C14.LATEST", "the pending slot is only ever overwritten with the incoming request, on every "
+             "in-flight path")
     run.rule("C14.NEXT", "the completion handler reaches the pending/clear decision on the normal and on "
              "every Exception path, pops+starts the pending request, clears the marker only otherwise")
     run.rule("C14.KEY", "all bookkeeping is keyed by frozenset(request.component_ids)")
@@ -291,10 +646,12 @@ def check(run: Run, prog: Program, tier: str) -> str:
     run.floor("C14.NEXT", 6)
     from ..engine.controls import run_controls
 
-    run_controls(run, CONTROLS, run_rules, tier)
+    run_controls(run, CONTROLS + structural_controls(prog), run_rules, tier, base_prog=prog)
     run.assume("asyncio is cooperative: between two awaits of _run no other task or done-callback runs")
+    run.assume("values of the in-flight map are tasks and values of the pending map are Request objects "
+               "(never None, always truthy): `d.get(k) is None` is read as `k not in d`")
     run.undecided("fairness/latency of the event loop; behaviour when a distribution task is cancelled")
-    return ("Path rules on the exception-aware CFGs of the request loop, the (synchronous) registration "
-            "function and the completion handler: guard exactness, await-freedom of the critical "
-            "section, overwrite-only pending slot, handler totality over Exception paths, and "
-            "who-may-call discipline.")
+    return ("Every path of one iteration of the request loop, of the (synchronous) registration function "
+            "and of the completion handler is walked symbolically (locals substituted, private helpers "
+            "followed): guard exactness, await-freedom of the critical section, overwrite-only pending "
+            "slot, handler totality over Exception paths, and who-may-call discipline.")
